@@ -90,7 +90,7 @@ fault = st.one_of(
     st.tuples(st.just("replay-stale"), st.integers(0, 5)).map(list),
 )
 op = st.fixed_dictionaries({
-    "kind": st.sampled_from(["call", "call", "call", "oneway", "batch", "getattr", "stream", "raise", "raise", "batch-oneway", "oneway-refused", "batch-oneway-refused"]),
+    "kind": st.sampled_from(["call", "call", "call", "oneway", "batch", "getattr", "stream", "raise", "raise", "batch-oneway", "oneway-refused", "batch-oneway-refused", "undecodable-arg"]),
     "faults": st.lists(fault, min_size=3, max_size=3),
 })
 
@@ -280,6 +280,25 @@ def run_case(case, servertype=None, keep=False):
                 o["_tok"], o["_want"] = tok, want_exec
                 if attempts and attempts[-1][0][0] == "reset-while-decoding":
                     state["stale"] = True       # the connection is dead but the proxy cannot know yet: the NEXT exchange may fail
+            elif kind == "undecodable-arg":
+                # a call whose argument the daemon refuses to decode (a class tag it does not know): the daemon reports that and closes
+                # the connection on its side - the proxy must come out of it usable (the next operation is judged as usual)
+                ctl.script = faults[:1]
+                try:
+                    res = ("ok", p.work(tok, {"__class__": "c03.no.such.Class", "tok": tok}))
+                except errors.CommunicationError as x:      # (SerializeError is one)
+                    res = ("comm", x)
+                except Exception as x:
+                    res = ("other", x)
+                attempts = ctl.history[before:]
+                if res[0] == "ok":
+                    viol("undecodable-argument-accepted", "%s returned %r" % (label, res[1]))
+                if res[0] == "other":
+                    viol("wrong-exception:call", "%s raised %r (not a communication error)" % (label, res[1]))
+                with LOCK:
+                    if EXEC.get(tok, 0):
+                        viol("execution-count:call", "%s: the method ran although its argument could not be decoded" % label)
+                after(attempts, "comm")
             elif kind in ("oneway-refused", "batch-oneway-refused"):
                 # a oneway request the daemon refuses in its dispatcher (no such member / a oneway batch whose second member does not
                 # exist): still no reply of any kind may come back - the next exchange on this connection must find its own answer
